@@ -190,3 +190,110 @@ class Copy(Contract):
             And(Not(same), dg == "/", Not(link), Not(soft_link)),
             And(len(copies) == len(CHILDREN), any(op[0] == "attrs.update" for op in writes)))
         return out
+
+
+# ---------------------------------------------------------------------------------------------
+# recognition test
+
+MAGIC_ = "HDF5::Cooler"
+
+
+class _AttrsFmt:
+    def __init__(self, fmt):
+        self.fmt = fmt
+
+    def pyvc_getattr(self, I, attr, node):
+        from pyvc.values import LibFunc
+        if attr == "get":
+            return LibFunc("attrs.get", lambda I, key, default=None: self.fmt if key == "format" else default)
+        raise Exception("attrs." + attr)
+
+
+class _GrpFmt:
+    """a group seen through its `format` attribute (None when absent) and the names of its children"""
+
+    def __init__(self, fmt, children, name="/x"):
+        self.attrs, self.children, self.name = _AttrsFmt(fmt), children, name
+
+    def pyvc_getattr(self, I, attr, node):
+        from pyvc.values import LibFunc
+        if attr == "attrs":
+            return self.attrs
+        if attr == "keys":
+            return LibFunc("Group.keys", lambda I: list(self.children))
+        if attr == "name":
+            return self.name
+        raise Exception("Group." + attr)
+
+
+@contract
+class IsCoolerGroup(Contract):
+    """a group is a collection iff its `format` attribute is the cooler magic string (a missing table only warns)"""
+    target = f"{FOP}:_is_cooler"
+    props = ["C15"]
+    inline = True
+
+    def configs(self, v):
+        def mk(has_fmt, children):
+            def f(v):
+                fmt = v.Str("format") if has_fmt else None
+                return dict(grp=_GrpFmt(fmt, children), __ghost__={"fmt": fmt})
+            return f
+        yield "format-attribute,all-tables", mk(True, ["chroms", "bins", "pixels", "indexes"])
+        yield "format-attribute,table-missing", mk(True, ["chroms", "bins"])
+        yield "no-format-attribute", mk(False, ["chroms", "bins", "pixels", "indexes"])
+
+    def ensures(self, result, grp):
+        fmt = self._v.path.ghost["fmt"]
+        if fmt is None:
+            return {"not-a-collection-without-the-format-attribute": result is False}
+        return {"true-iff-the-format-is-the-cooler-magic": Iff(result, fmt == z3.StringVal(MAGIC_)) if not isinstance(result, bool)
+                else (fmt == z3.StringVal(MAGIC_) if result else fmt != z3.StringVal(MAGIC_))}
+
+
+@contract
+class IsCooler(Contract):
+    """is_cooler(uri) is true exactly when the file is HDF5, the group path resolves, and the group carries the cooler
+    format; for a non-HDF5 file, a missing path or a dangling link it is False - never an error; the file is opened
+    read-only"""
+    target = f"{FOP}:is_cooler"
+    props = ["C15"]
+
+    def configs(self, v):
+        from pyvc.values import LibFunc, LibNS, ExcVal, PyRaise
+
+        def f(v):
+            log = []
+            is_h5, exists = v.Bool("is_hdf5"), v.Bool("path_resolves")
+            fmt = v.Str("format")
+            fp, gp = v.Str("filepath"), v.Str("grouppath")
+
+            class _F:
+                def pyvc_enter(self, I):
+                    return self
+
+                def pyvc_exit(self, I, exc):
+                    log.append(("close",))
+
+                def pyvc_getitem(self, I, key, node):
+                    log.append(("lookup", key))
+                    if I.path.branch(exists):
+                        return _GrpFmt(fmt, ["chroms", "bins", "pixels", "indexes"])
+                    raise PyRaise(ExcVal("KeyError", ("no such path or dangling link",)))
+
+            def File(I, path, mode="r", **k):
+                log.append(("open", path, mode))
+                return _F()
+            h5 = LibNS("h5py", {"is_hdf5": LibFunc("h5py.is_hdf5", lambda I, p: is_h5), "File": LibFunc("h5py.File", File)})
+            return dict(uri=v.Str("uri"), __free__={"h5py": h5, "parse_cooler_uri": LibFunc("parse_cooler_uri", lambda I, u: (fp, gp))},
+                        __ghost__={"log": log, "is_h5": is_h5, "exists": exists, "fmt": fmt, "fp": fp, "gp": gp})
+        yield "", f
+
+    def ensures(self, result, uri):
+        g = self._v.path.ghost
+        want = And(g["is_h5"], g["exists"], g["fmt"] == z3.StringVal(MAGIC_))
+        out = {"true-exactly-for-collections": Iff(result, want) if not isinstance(result, bool) else (want if result else Not(want))}
+        opens = [op for op in g["log"] if op[0] == "open"]
+        out["read-only"] = all(op[2] == "r" for op in opens) and all(op[1] is g["fp"] for op in opens)
+        out["looks-up-the-uris-group"] = all(op[1] is g["gp"] for op in g["log"] if op[0] == "lookup")
+        return out
